@@ -143,6 +143,7 @@ type Effects struct {
 	Calls   map[*ssa.Function]bool
 	Extern  map[string]bool // external functions called
 	Allocs  bool
+	KeepAllocs bool // loop summaries: stores to local objects count
 }
 
 func newEffects() *Effects {
@@ -161,7 +162,11 @@ func (e *Effects) addRoot(r Root) {
 	case "slice":
 		e.Mems[r.elem.String()] = r.elem
 	case "alloc":
-		// local object: not visible to the caller unless it escapes; ignored.
+		// local object: not visible to the caller unless it escapes; ignored in function summaries. A loop summary
+		// keeps it: a local that exists before the loop and is stored to inside it changes from iteration to iteration.
+		if e.KeepAllocs {
+			e.Roots[r.String()] = r
+		}
 	default:
 		e.Roots[r.String()] = r
 	}
